@@ -1,4 +1,5 @@
 import OdfProofs.TableHist
+import OdfProofs.Traverse
 import OdfModel.TableObj
 
 /-! The object layer (wrapper caches) refines the XML-level table model. -/
@@ -831,5 +832,61 @@ theorem cached_history (ops : List OOp) (o : OTbl) (hc : CacheOk o) (hi : Inv o.
       · simp only [orun, ostepAll, Option.bind_some, e, Option.map_some]
       · rw [h2] at f
         simp only [frun, fstepAll, Option.bind_some, f, Option.map_some]
+
+/-! ### down to the plain grid: the answers given through the caches are the answers of C01's spec -/
+
+theorem rowValuesFresh_ok (t : Tbl) (h : Inv t) (y : Int) : rowValuesFresh t y = gridRowValues (absT t) y := by
+  unfold rowValuesFresh gridRowValues
+  simp only
+  rw [tr_eq_norm, width_ok t h, height_ok t h]
+  generalize Grid.norm y (Grid.height (absT t)) = yn
+  by_cases hy : yn ≥ Grid.height (absT t)
+  · rw [if_pos hy, if_pos hy]
+  · rw [if_neg hy, if_neg hy]
+    have hy' : yn < height t := by rw [height_ok t h]; omega
+    obtain ⟨a, b, d, rep, hruns, hrow, hlo, hhi⟩ := rowAt_spec t h yn hy'
+    have hgd : (absT t).rows.getD yn [] = expand d := by
+      rw [rows_getD, hruns, expand_getD_of_decomp a b d rep _ [] hlo hhi]
+    rw [hrow, hgd]
+    rfl
+
+/-- the cache-free run of a history on a coherent table is the run of the plain grid -/
+theorem frun_is_grid (ops : List OOp) (t : Tbl) (hi : Inv t) (hfit : Table.GridFit (absT t))
+    (hv : ∀ op ∈ muts ops, op.Valid)
+    (hlimbo : ∀ k, k ≤ (muts ops).length → NoLimbo (grun (absT t) ((muts ops).take k))) :
+    ∃ t', frun t ops = some (t', grunAll (absT t) ops) ∧ absT t' = grun (absT t) (muts ops) := by
+  induction ops generalizing t with
+  | nil => exact ⟨t, rfl, rfl⟩
+  | cons op ops ih =>
+    cases op with
+    | edit m =>
+      have hvm : m.Valid := hv m (by simp [muts])
+      obtain ⟨t1, e1, a1, i1⟩ := step_refines t hi hfit m hvm
+      have hl1 : NoLimbo (absT t1) := by
+        have := hlimbo 1 (by simp [muts])
+        simpa [muts, grun, a1] using this
+      have hfit1 : Table.GridFit (absT t1) := by rw [a1]; exact fit_gstep _ hfit m
+      obtain ⟨t', f, a⟩ := ih t1 (i1 hl1) hfit1 (fun p hp => hv p (by simp [muts, hp])) (by
+        intro k hk
+        have := hlimbo (k + 1) (by simp [muts]; omega)
+        simpa [muts, grun, a1] using this)
+      refine ⟨t', ?_, ?_⟩
+      · simp only [frun, fstepAll, e1, Option.map_some, Option.bind_some, f, grunAll, gstepAll, a1]
+      · simp only [muts, grun, ← a1, a]
+    | readValue x y =>
+      obtain ⟨t', f, a⟩ := ih t hi hfit (fun p hp => hv p (by simpa [muts] using hp)) (by
+        intro k hk; exact hlimbo k (by simpa [muts] using hk))
+      refine ⟨t', ?_, by simpa [muts] using a⟩
+      simp only [frun, fstepAll, Option.bind_some, f, Option.map_some, grunAll, gstepAll, Table.getValue_ok t hi]
+    | readRow y =>
+      obtain ⟨t', f, a⟩ := ih t hi hfit (fun p hp => hv p (by simpa [muts] using hp)) (by
+        intro k hk; exact hlimbo k (by simpa [muts] using hk))
+      refine ⟨t', ?_, by simpa [muts] using a⟩
+      simp only [frun, fstepAll, Option.bind_some, f, Option.map_some, grunAll, gstepAll, rowValuesFresh_ok t hi]
+    | touchRow y =>
+      obtain ⟨t', f, a⟩ := ih t hi hfit (fun p hp => hv p (by simpa [muts] using hp)) (by
+        intro k hk; exact hlimbo k (by simpa [muts] using hk))
+      refine ⟨t', ?_, by simpa [muts] using a⟩
+      simp only [frun, fstepAll, Option.bind_some, f, Option.map_some, grunAll, gstepAll]
 
 end Odf.TableObj
